@@ -151,3 +151,46 @@ def on_all_paths(F, body, block, depth=0):
     if call is None or not call.is_('LocalKey::with', 'LocalKey::with_borrow', 'LocalKey::with_borrow_mut'):
         return False
     return on_all_paths(F, parent, call.bb, depth + 1)
+
+
+# ------------------------------------------------------------------------------------------------
+# comparisons, whichever way round and with whichever polarity they are written
+# ------------------------------------------------------------------------------------------------
+_NEG = {'lt': 'ge', 'le': 'gt', 'gt': 'le', 'ge': 'lt', 'eq': 'ne', 'ne': 'eq'}
+_FLIP = {'lt': 'gt', 'le': 'ge', 'gt': 'lt', 'ge': 'le', 'eq': 'eq', 'ne': 'ne'}
+_BIN = {'Lt': 'lt', 'Le': 'le', 'Gt': 'gt', 'Ge': 'ge', 'Eq': 'eq', 'Ne': 'ne'}
+_CALLS = {'PartialOrd::lt': 'lt', 'PartialOrd::le': 'le', 'PartialOrd::gt': 'gt', 'PartialOrd::ge': 'ge',
+          'PartialEq::eq': 'eq', 'PartialEq::ne': 'ne'}
+
+
+def comparisons(b):
+    """Every branch on an ordering / equality test of two values, primitive (`Lt(a, b)`) or through
+    the comparison traits: (a, b, rel, edges taken when `a rel b`, edges taken otherwise, block)."""
+    out = []
+    for sw in b.switches:
+        on = sw.on
+        if sw.kind == 'bool' and on.kind == 'bin' and on.key[0] in _BIN:
+            out.append((on.key[1], on.key[2], _BIN[on.key[0]], sw.edges_for(True), sw.edges_for(False), sw.bb))
+    for c in b.calls:
+        for pat, rel in _CALLS.items():
+            if c.is_(pat) and len(c.args) == 2:
+                te, fe = b.branch(c, True), b.branch(c, False)
+                if te or fe:
+                    out.append((b.val(c.args[0]), b.val(c.args[1]), rel, te, fe, c.bb))
+                break
+    return out
+
+
+def edges_where(b, is_a, is_b, rel):
+    """Edges on which `a rel b` is known to hold, for the a / b recognised by the two predicates;
+    `x >= y` false-edge, `y > x` true-edge, ... all establish `x < y`."""
+    out = []
+    for (x, y, r, te, fe, bb) in comparisons(b):
+        for (p, q, rr) in ((x, y, r), (y, x, _FLIP[r])):
+            if is_a(p) and is_b(q):
+                if rr == rel:
+                    out += te
+                elif _NEG[rr] == rel:
+                    out += fe
+                break
+    return out
